@@ -11,11 +11,12 @@ Open Scope nat_scope.
 (* ================================================================ the last instruction of a statement *)
 Section Last.
 Variable path : str.
+Variable SF : sfk.
 
 Lemma tailc_snoc : forall l i, tailc (l ++ [i]) = if (op i =? OP_RET)%N then [] else [mkI OP_VOID []; mkI OP_RET []].
 Proof. intros l i. unfold tailc. rewrite rev_app_distr. reflexivity. Qed.
 
-Lemma sc_last : forall st B CD B' rets c lr k, kstmt B CD st = Some (B', rets) ->
+Lemma sc_last : forall st B CD B' rets c lr k, kstmt SF B CD st = Some (B', rets) ->
   exists pre i, fst (sc path c lr k st) = pre ++ [i] /\ (op i = OP_RET -> is_ret st = true).
 Proof.
   intros st B CD B' rets c lr k H. destruct st; try discriminate.
@@ -26,6 +27,9 @@ Proof.
   - rewrite sc_Expr. destruct (ec path c lr k e) as [ce fe]. exists ce, (mkI OP_VOID []). split; [reflexivity|discriminate].
   - rewrite sc_SIf. destruct (ec path c lr k c0) as [cc fc]. destruct (bc path c lr (k + length fc) body) as [cb0 fb].
     eexists. exists (mkI OP_DONE []). split; [cbn [fst]; rewrite !app_assoc; reflexivity|discriminate].
+  - rewrite sc_SIfElse. destruct (ec path c lr k c0) as [cc fc]. destruct (bc path c lr (k + length fc) body) as [cb0 fb].
+    destruct (bc path c lr (k + length fc + length fb) els) as [ce0 fe].
+    eexists. exists (mkI OP_DONE []). split; [cbn [fst]; rewrite app_comm_cons, !app_assoc; reflexivity|discriminate].
   - rewrite sc_SWhile. destruct (ec path c lr k c0) as [cc fc]. destruct (bc path c lr (k + length fc) body) as [cb0 fb].
     eexists. eexists. split; [cbn [fst]; rewrite !app_assoc; reflexivity|discriminate].
   - destruct step; [discriminate|]. destruct name as [x|]; [|discriminate]. destruct collide; [discriminate|].
@@ -45,14 +49,14 @@ Proof.
     cbn [fst snd] in *. rewrite IH, app_length, Nat.add_assoc, app_assoc. reflexivity.
 Qed.
 
-Lemma kblock_snoc : forall l B CD st B' rets, kblock B CD (l ++ [st]) = Some (B', rets) -> exists B1 B2 r2, kstmt B1 CD st = Some (B2, r2).
+Lemma kblock_snoc : forall l B CD st B' rets, kblock SF B CD (l ++ [st]) = Some (B', rets) -> exists B1 B2 r2, kstmt SF B1 CD st = Some (B2, r2).
 Proof.
   induction l as [|x l IH]; intros B CD st B' rets H; cbn [app kblock] in H.
-  - destruct (kstmt B CD st) as [[B1 r1]|] eqn:E; [|discriminate]. eauto.
-  - destruct (kstmt B CD x) as [[B1 r1]|]; [|discriminate]. destruct (kblock B1 CD (l ++ [st])) as [[B3 r3]|] eqn:E; [|discriminate]. eauto.
+  - destruct (kstmt SF B CD st) as [[B1 r1]|] eqn:E; [|discriminate]. eauto.
+  - destruct (kstmt SF B CD x) as [[B1 r1]|]; [|discriminate]. destruct (kblock SF B1 CD (l ++ [st])) as [[B3 r3]|] eqn:E; [|discriminate]. eauto.
 Qed.
 
-Lemma bc_ends_ret : forall body B CD B' rets c lr k, kblock B CD body = Some (B', rets) ->
+Lemma bc_ends_ret : forall body B CD B' rets c lr k, kblock SF B CD body = Some (B', rets) ->
   tailc (fst (bc path c lr k body)) = [] -> ends_ret body = true.
 Proof.
   intros body B CD B' rets c lr k Hk Ht.
@@ -69,6 +73,19 @@ Proof.
 Qed.
 End Last.
 
+(* a body that surely ends with `return e` does not complete normally *)
+Lemma last_ret_sig : forall l fuel env s env' s', last_ret l = true -> exec_block fuel env l s = SOk SigNormal env' s' -> False.
+Proof.
+  induction l as [|st l IH]; intros fuel env s env' s' Hl He; [discriminate Hl|].
+  destruct fuel as [|fuel]; [discriminate He|]. rewrite exec_block_cons in He.
+  destruct l as [|st2 l2].
+  - cbn [last_ret] in Hl. destruct st as [| | | | | | | | | | | | |[e|]]; try discriminate Hl.
+    destruct fuel as [|fuel]; [discriminate He|]. rewrite exec_SReturn in He.
+    destruct (eval fuel env e s) as [v s1|s1|f s1|]; discriminate He.
+  - destruct (Eval.exec fuel env st s) as [[| | |rv] e1 s1|f s1|]; try discriminate He.
+    eapply IH; [exact Hl|exact He].
+Qed.
+
 (* ================================================================ calls *)
 Section Calls.
 Variable path : str.
@@ -80,13 +97,14 @@ Local Notation clos_ok := (ClosRel.clos_ok path prog).
 Local Notation installed := (ClosRel.installed prog).
 
 (* the relation at the entry of a function: one empty scope / the fresh function frame *)
-Lemma Cl_entry : forall b s g1 G cenv loc cbf selfv,
+Lemma Cl_entry : forall b s g1 G cenv loc cbf selfv SF,
   heap_ok b s g1 -> out g1 = rout s -> frames_nd (frames g1) ->
   (forall x kx, In (x, kx) G -> uname0 x /\ exists c c', lookup_scopes x cenv = Some c /\ cbget cbf x = Some c' /\ b c c' kx) ->
   NoDup (map fst G) ->
-  Cl path prog cbf G (frames g1) b [] {| locals := [[]]; captured := cenv; cur := selfv |} s (push_frame g1 (LFun loc)).
+  cur_ok path prog cbf loc SF b {| locals := [[]]; captured := cenv; cur := selfv |} ->
+  Cl path prog cbf G (frames g1) loc SF b [] {| locals := [[]]; captured := cenv; cur := selfv |} s (push_frame g1 (LFun loc)).
 Proof.
-  intros b s g1 G cenv loc cbf selfv Hh Ho Hnd HG HndG.
+  intros b s g1 G cenv loc cbf selfv SF Hh Ho Hnd HG HndG Hcur.
   constructor; cbn [locals captured cur push_frame with_frames frames out cells length skipn]; try assumption; try reflexivity.
   - cbn [Rfr2]. split; [|reflexivity]. intros x Hx. cbn. exact Logic.I.
   - intros x k E. discriminate.
@@ -103,8 +121,9 @@ Variable code : list instr.
 Variable cb : option (list (str * N)).
 Variable CD : kctx.
 Variable base : list frame.
+Variable SF : sfk.
 Hypothesis Hsmall : small (1 + 2 * length code + 8).
-Local Notation ClA := (Cl path prog cb CD base).
+Local Notation ClA := (Cl path prog cb CD base name SF).
 
 Lemma params_sim : forall ps pk vs ws k Bk acc b a g env s allws,
   code_at code (2 * k) (pcodeP k ps) -> a_ip a = 2 * k -> a_args a = allws -> a_ops a = [] ->
@@ -153,10 +172,10 @@ Proof.
     set (i2 := mkI OP_STORE [p]) in *.
     set (g1t := trc name a1 g1 i2).
     assert (HC1t : ClA b Bk env s g1t) by (eapply Cl_same; [exact HC|reflexivity|reflexivity|reflexivity]).
-    destruct (frames g1t) as [|f fs] eqn:Ef; [exact (False_ind _ (proj2 (Rfr2_ne _ _ _ (cl_fr _ _ _ _ _ _ _ _ _ _ HC1t)) Ef))|].
-    destruct (Cl_declare path prog cb CD base b Bk env s g1t p k1 v w acc [] f fs HC1t Hpu Hv El Ef Hpn0 HpB (trace g1t)) as [HC2 He2].
+    destruct (frames g1t) as [|f fs] eqn:Ef; [exact (False_ind _ (proj2 (Rfr2_ne _ _ _ (cl_fr _ _ _ _ _ _ _ _ _ _ _ _ HC1t)) Ef))|].
+    destruct (Cl_declare path prog cb CD base name SF b Bk env s g1t p k1 v w acc [] f fs HC1t Hpu Hv El Ef Hpn0 HpB (trace g1t)) as [HC2 He2].
     cbv zeta in HC2, He2.
-    match type of HC2 with Cl _ _ _ _ _ _ _ ?E ?S ?G => set (env1 := E) in *; set (s1 := S) in *; set (g2 := G) in * end.
+    match type of HC2 with Cl _ _ _ _ _ _ _ _ _ ?E ?S ?G => set (env1 := E) in *; set (s1 := S) in *; set (g2 := G) in * end.
     set (a2 := set_ip (set_ops a1 []) (S (a_ip a1))).
     assert (R2 : xrun prog name code a g a2 g2).
     { eapply xrun_trans; [exact R1|].
@@ -164,7 +183,7 @@ Proof.
       - cbn [a1 set_ip a_ip]. rewrite Hip. exact Hi2.
       - apply (exec_store p a1 g1t w g2); [reflexivity|].
         assert (Hf : find_in_function p (frames g1t) = None).
-        { pose proof (Rfr2_look _ _ _ (cl_fr _ _ _ _ _ _ _ _ _ _ HC1t) p Hpu) as Hl. rewrite Hpn0 in Hl.
+        { pose proof (Rfr2_look _ _ _ (cl_fr _ _ _ _ _ _ _ _ _ _ _ _ HC1t) p Hpu) as Hl. rewrite Hpn0 in Hl.
           destruct (find_in_function p (frames g1t)); [contradiction|reflexivity]. }
         unfold store_var. rewrite Hf. unfold bind_local. rewrite Ef. reflexivity. }
     assert (Hb1 : bound2 ((p, k1) :: Bk) env1).
@@ -206,8 +225,9 @@ Theorem call_sim_all : forall fuel, call_sim path prog fuel.
 Proof.
   induction fuel as [fuel IH] using lt_wf_ind.
   intros b s g1 pk r ps body cenv loc cbf vs ws Hh Ho Hnd Hclos Hvs.
+  pose proof Hclos as Hclos0.
   destruct Hclos as (G & d & lr & k & Hkf & Eloc & Hinst & HG).
-  destruct Hkf as (Epk & Hndp & Hsrc & EG & B' & rets & Hkb & Hrets).
+  destruct Hkf as (Epk & Hndp & Hsrc & EG & Htot & B' & rets & Hkb & Hrets).
   rewrite ec_EFn in Hinst. cbv zeta in Hinst. cbn [snd] in Hinst. apply (installed_app prog) in Hinst as [Hinb Hinf].
   set (fcd := fcode path d lr k ps body) in *.
   destruct (Hinf loc (S d) fcd ltac:(left; rewrite Eloc; reflexivity)) as [Hcode Hsm].
@@ -222,9 +242,10 @@ Proof.
   set (env0 := {| locals := [[]]; captured := cenv; cur := Some fv |}).
   set (a0 := act0 loc ws cbf). set (gP := push_frame g1 (LFun loc)).
   assert (HndG : NoDup (map fst G)) by (rewrite EG; apply CaptureSpec.free_vars_NoDup).
-  pose proof (Cl_entry b s g1 G cenv loc cbf (Some fv) Hh Ho Hnd HG HndG) as HC0. fold env0 gP in HC0.
+  pose proof (Cl_entry b s g1 G cenv loc cbf (Some fv) (Some (pk, r)) Hh Ho Hnd HG HndG
+                ltac:(exists ps, body, cenv; split; [reflexivity|exact Hclos0])) as HC0. fold env0 gP in HC0.
   assert (Hsm1 : small (1 + 2 * length fcd + 8)) by (eapply small_le; [|exact Hsm]; lia).
-  pose proof (params_sim loc fcd cbf G (frames g1) ps pk vs ws 0 [] [] b a0 gP env0 s ws
+  pose proof (params_sim loc fcd cbf G (frames g1) (Some (pk, r)) ps pk vs ws 0 [] [] b a0 gP env0 s ws
                 ltac:(intros j i Hj; rewrite Efc; cbn [Nat.mul Nat.add]; rewrite nth_error_app1; [exact Hj|apply nth_error_Some; congruence])
                 eq_refl eq_refl eq_refl ltac:(intros j w Hj; exact Hj) HC0 eq_refl
                 ltac:(split; [intros x; cbn; split; [congruence|intros []]|intros x []])
@@ -236,12 +257,12 @@ Proof.
   assert (Eenv : env1 = {| locals := [sc]; captured := cenv; cur := Some fv |}) by (rewrite (fenv_eta env1), El1, Ec1, Eu1; reflexivity).
   subst env1.
   (* the body *)
-  pose proof (bspec_all path prog loc fcd cbf G (frames g1) (S d) Hsm fuel IH body b1 (rev (combine ps pk)) lr k fuel (2 * length ps)
+  pose proof (bspec_all path prog loc fcd cbf G (frames g1) (Some (pk, r)) (S d) Hsm fuel IH body b1 (rev (combine ps pk)) lr k fuel (2 * length ps)
                 a1 gq {| locals := [sc]; captured := cenv; cur := Some fv |} s1 B' rets (le_n _) Hkb Hb1 Hinb) as H.
   fold cb0 in H.
   specialize (H ltac:(rewrite Efc, <- (pcodeP_length ps 0); apply code_at_embed)
                 ltac:(destruct (tailc_cases cb0) as [Et|Et]; [left; rewrite Hlenc, Et; cbn [length]; lia|
-                      right; split; [exact (bc_ends_ret path body _ G B' rets (S d) lr k Hkb Et)|rewrite Hlenc, Et; cbn [length]; lia]])
+                      right; split; [exact (bc_ends_ret path _ body _ G B' rets (S d) lr k Hkb Et)|rewrite Hlenc, Et; cbn [length]; lia]])
                 Hip1 ltac:(rewrite (proj2 (proj2 Ha1)); reflexivity) Hops1 ltac:(cbn [locals length]; lia) HC1).
   assert (Egp : cells gP = cells g1) by reflexivity.
   assert (Hbext : forall b' s' g', bext b1 b' s1 gq -> lens s1 s' gq g' -> bext b b' s g1).
@@ -251,7 +272,7 @@ Proof.
   { intros g' K c' w0 Hc' Hn0. apply (keep_trans b b1 s gP gq g' Hk1 He1 K); [unfold cell_get in *; rewrite Egp; exact Hc'|exact Hn0]. }
   assert (Hlens : forall s' g', lens s1 s' gq g' -> lens s s' g1 g').
   { intros s' g' L. destruct (lens_trans _ _ _ _ _ _ Hl1 L) as [X1 X2]. split; [exact X1|rewrite <- Egp; exact X2]. }
-  destruct (exec_block fuel {| locals := [sc]; captured := cenv; cur := Some fv |} body s1) as [sig env2 s2|fl s2|]; [| |exact Logic.I].
+  destruct (exec_block fuel {| locals := [sc]; captured := cenv; cur := Some fv |} body s1) as [sig env2 s2|fl s2|] eqn:Eex; [| |exact Logic.I].
   2:{ (* the body fails *)
       eapply fail_post_map; [|exact H]. intros (e & g' & Hf & Hr & Hof).
       destruct (run_fn_fail prog loc fcd ws cbf g1 e g' Hcode ltac:(eapply xrun_fail; [exact R1|exact Hf])) as [fuel' Hrun].
@@ -260,17 +281,18 @@ Proof.
   destruct sig as [| | |[v|]]; try contradiction.
   - (* the body completes without `return`: no value *)
     destruct H as (_ & a2 & g2 & b2 & SM2 & Hip2 & Hops2 & HC2).
+    split; [destruct Htot as [Ht|Ht]; [exact Ht|exfalso; exact (last_ret_sig _ _ _ _ _ _ Ht Eex)]|].
     unfold smid in SM2. destruct SM2 as (R2 & E2 & T2 & A2 & S2 & K2 & L2).
     pose proof (same_tl_length {| locals := [sc]; captured := cenv; cur := Some fv |} env2 ltac:(cbn; discriminate) Hd2) as Hl2.
     cbn [locals length] in Hl2.
-    pose proof (cl_base _ _ _ _ _ _ _ _ _ _ HC2) as Hbase. rewrite Hl2 in Hbase.
-    destruct (frames g2) as [|f2 fs2] eqn:Ef2; [exfalso; exact (proj2 (Rfr2_ne _ _ _ (cl_fr _ _ _ _ _ _ _ _ _ _ HC2)) Ef2)|].
+    pose proof (cl_base _ _ _ _ _ _ _ _ _ _ _ _ HC2) as Hbase. rewrite Hl2 in Hbase.
+    destruct (frames g2) as [|f2 fs2] eqn:Ef2; [exfalso; exact (proj2 (Rfr2_ne _ _ _ (cl_fr _ _ _ _ _ _ _ _ _ _ _ _ HC2)) Ef2)|].
     cbn [skipn] in Hbase. subst fs2.
-    pose proof (Rfr2_drop _ _ _ (cl_fr _ _ _ _ _ _ _ _ _ _ HC2)) as Hdrop. rewrite Hl2, Ef2 in Hdrop. cbn [skipn] in Hdrop.
+    pose proof (Rfr2_drop _ _ _ (cl_fr _ _ _ _ _ _ _ _ _ _ _ _ HC2)) as Hdrop. rewrite Hl2, Ef2 in Hdrop. cbn [skipn] in Hdrop.
     assert (Hfin : forall gf, frames gf = frames g1 -> out gf = out g2 -> cells gf = cells g2 ->
               bext b b2 s g1 /\ heap_ok b2 s2 gf /\ frames gf = frames g1 /\ out gf = rout s2 /\ keep b g1 gf /\ lens s s2 g1 gf).
-    { intros gf F1 F2 F3. split; [exact (Hbext _ _ _ E2 L2)|]. split; [eapply heap_ok_same; [exact (cl_heap _ _ _ _ _ _ _ _ _ _ HC2)|reflexivity|exact F3]|].
-      split; [exact F1|]. split; [rewrite F2; exact (cl_out _ _ _ _ _ _ _ _ _ _ HC2)|].
+    { intros gf F1 F2 F3. split; [exact (Hbext _ _ _ E2 L2)|]. split; [eapply heap_ok_same; [exact (cl_heap _ _ _ _ _ _ _ _ _ _ _ _ HC2)|reflexivity|exact F3]|].
+      split; [exact F1|]. split; [rewrite F2; exact (cl_out _ _ _ _ _ _ _ _ _ _ _ _ HC2)|].
       split; [intros c' w0 Hc' Hn0; unfold cell_get; rewrite F3; exact (Hkeep _ K2 c' w0 Hc' Hn0)|].
       destruct (Hlens _ _ L2) as [X1 X2]. split; [exact X1|rewrite F3; exact X2]. }
     destruct (tailc_cases cb0) as [Et|Et].
@@ -341,7 +363,7 @@ Qed.
 (* the decidable fragment with first-class functions: the module is well-kinded, and the code generator's output is what
    ec / sc / bc say (checked on the program itself; Compile/ClosFrag.v comp_both shows it always is) *)
 Definition in_fragment2 (path : str) (p : source) : bool :=
-  match kblock [] [] p with
+  match kblock None [] [] p with
   | Some _ =>
     let prog := cprogram path p in
     let mc := fst (bc path 0 0 0 p) ++ [ret_mod] in
@@ -357,7 +379,7 @@ Theorem closure_module_correct : forall path p, in_fragment2 path p = true ->
                 vm_outcome_ok (snd (run fuel p)) (snd (fst (execute fuel' (cprogram path p) (s_module_fn path)))).
 Proof.
   intros path p Hin fuel Hnf. unfold in_fragment2 in Hin.
-  destruct (kblock [] [] p) as [[B' rets]|] eqn:Hk; [|discriminate].
+  destruct (kblock None [] [] p) as [[B' rets]|] eqn:Hk; [|discriminate].
   set (P := cprogram path p) in *. set (name := s_module_fn path) in *.
   set (cbm := fst (bc path 0 0 0 p)) in *. set (mc := cbm ++ [ret_mod]) in *.
   cbv zeta in Hin. rewrite !andb_true_iff in Hin. destruct Hin as [[Hinst Hcode] Hsm].
@@ -368,9 +390,9 @@ Proof.
   set (s0 := {| store := []; rout := [] |}).
   set (a0 := act0 name [] None). set (gP := push_frame g0 (LFun name)).
   assert (Hh0 : heap_ok path P b0 s0 g0) by (split; [intros c c' k []|intros c1 c1' k1 c2 c2' k2 []]).
-  pose proof (Cl_entry path P b0 s0 g0 [] [] name None None Hh0 eq_refl ltac:(constructor) ltac:(intros x kx []) ltac:(constructor)) as HC0.
+  pose proof (Cl_entry path P b0 s0 g0 [] [] name None None None Hh0 eq_refl ltac:(constructor) ltac:(intros x kx []) ltac:(constructor) Logic.I) as HC0.
   fold env0 gP in HC0.
-  pose proof (bspec_all path P name mc None [] [] 0 Hsm fuel (fun f _ => call_sim_all path P f) p b0 [] 0 0 fuel 0 a0 gP env0 s0 B' rets
+  pose proof (bspec_all path P name mc None [] [] None 0 Hsm fuel (fun f _ => call_sim_all path P f) p b0 [] 0 0 fuel 0 a0 gP env0 s0 B' rets
                 (le_n _) Hk ltac:(split; [intros x; cbn; split; [congruence|intros []]|intros x []]) Hinst
                 ltac:(exact (code_at_embed [] cbm [ret_mod])) ltac:(left; unfold mc; rewrite app_length; cbn [length]; fold cbm; lia)
                 eq_refl eq_refl eq_refl ltac:(cbn; lia) HC0) as H.
@@ -381,8 +403,8 @@ Proof.
     + destruct H as (_ & a' & g' & b' & SM & Hip & Hops & HC).
       unfold smid in SM. destruct SM as (Hn & _).
       pose proof (same_tl_length env0 env' ltac:(cbn; discriminate) Hd) as Hl. cbn [env0 locals length] in Hl.
-      pose proof (Rfr2_drop _ _ _ (cl_fr _ _ _ _ _ _ _ _ _ _ HC)) as Hdrop. rewrite Hl in Hdrop.
-      pose proof (cl_base _ _ _ _ _ _ _ _ _ _ HC) as Hbase. rewrite Hl in Hbase. rewrite Hbase in Hdrop.
+      pose proof (Rfr2_drop _ _ _ (cl_fr _ _ _ _ _ _ _ _ _ _ _ _ HC)) as Hdrop. rewrite Hl in Hdrop.
+      pose proof (cl_base _ _ _ _ _ _ _ _ _ _ _ _ HC) as Hbase. rewrite Hl in Hbase. rewrite Hbase in Hdrop.
       destruct (xrun_loop _ _ _ _ _ _ _ Hn) as (N & n & Hloop).
       set (f0 := Nat.max N (n + 1)).
       assert (Hrun : exists tr'', run_fn (S f0) P name [] None g0 = RDone (Some VModule) {| cells := cells g'; frames := []; out := out g'; trace := tr'' |}).
@@ -397,7 +419,7 @@ Proof.
         rewrite Hops. cbn [add_trace frames with_frames]. rewrite Hdrop. reflexivity. }
       destruct Hrun as (tr'' & Hrun). right.
       exists (S f0). unfold execute. fold P name. rewrite Hrun. cbn [fst snd frames out].
-      split; [exact (cl_out _ _ _ _ _ _ _ _ _ _ HC)|exact Logic.I].
+      split; [exact (cl_out _ _ _ _ _ _ _ _ _ _ _ _ HC)|exact Logic.I].
     + (* a `return` at module level ends the module *)
       destruct H as (a' & g' & b' & w & k & Hn & Hi & Hops & _ & _ & _ & _ & Ho & Hdrop & _).
       destruct (xrun_loop _ _ _ _ _ _ _ Hn) as (N & n & Hloop).
